@@ -599,7 +599,8 @@ def _prepare_czt_basis(N, M, K, shift, alpha, dtype, norm=False):
     h = np.zeros(K, dtype=dtype)
 
     # need to populate h piecewise, see Jurling2014 48c, 48d
-    start = -(N // 2 - M // 2) + shift
+    # python float: a numpy float32 shift must not round the kernel origin to single precision
+    start = -(N // 2 - M // 2) + float(shift)
     j = np.arange(M, dtype=dtype) - start  # do not need a "-1" because arange is naturally end-exclusive
     # j is an index variable
     h[:M] = np.pi * (j * j)
